@@ -248,14 +248,16 @@ bail:
 
 /* redef that grows the header with data present: data movement (PNETCDF_VERIF_MOVE_UNIT lowers the
  * round size); variant 1 grows the header extent (records and fixed variables move), variant 2 adds a
- * fixed-size variable (only the record section moves) */
+ * fixed-size variable (only the record section moves as a whole); variants 3 and 4 start from THREE
+ * records: 3 adds a record variable (the record size grows: the records are moved one at a time, last to
+ * first), 4 only grows the header (the whole record section and the fixed variable move) */
 static void sc_redef(const char *file, int variant)
 {
-    int ncid = -1, opened = 0, dx, dt, v1, v2, v3, dims[2], i, buf[2 * NX];
+    int ncid = -1, opened = 0, dx, dt, v1, v2, v3, dims[2], i, buf[3 * NX], nrec = (variant >= 3) ? 3 : 2;
     MPI_Offset start[2], count[2];
     char big[900];
     MPI_Info info = mkinfo();
-    for (i = 0; i < 2 * NX; i++) buf[i] = 1000 * g_rank + i;
+    for (i = 0; i < 3 * NX; i++) buf[i] = 1000 * g_rank + i;
     memset(big, 'a', sizeof(big));
     P(ncmpi_create(g_comm, file, NC_CLOBBER, info, &ncid));
     opened = 1;
@@ -267,17 +269,23 @@ static void sc_redef(const char *file, int variant)
     P(ncmpi_enddef(ncid));
     start[0] = NX * g_rank; count[0] = NX;
     P(ncmpi_put_vara_int_all(ncid, v1, start, count, buf));
-    start[0] = 0; start[1] = NX * g_rank; count[0] = 2; count[1] = NX;
+    start[0] = 0; start[1] = NX * g_rank; count[0] = nrec; count[1] = NX;
     P(ncmpi_put_vara_int_all(ncid, v2, start, count, buf));
     g_armed = 1;
     A("ncmpi_redef", ncmpi_redef(ncid));
-    if (variant == 1)
+    if (variant == 3)
+        A("ncmpi_def_var", ncmpi_def_var(ncid, "rec2", NC_INT, 2, dims, &v3));
+    else if (variant == 1 || variant == 4)
         A("ncmpi_put_att_text", ncmpi_put_att_text(ncid, NC_GLOBAL, "big", sizeof(big), big));
     else
         A("ncmpi_def_var", ncmpi_def_var(ncid, "fix2", NC_INT, 1, &dx, &v3));
     A("ncmpi_enddef", ncmpi_enddef(ncid));
     start[0] = NX * g_rank; count[0] = NX;
     A("ncmpi_get_vara_int_all", ncmpi_get_vara_int_all(ncid, v1, start, count, buf));
+    if (variant >= 3) {
+        start[0] = 0; start[1] = NX * g_rank; count[0] = nrec; count[1] = NX;
+        A("ncmpi_get_vara_int_all", ncmpi_get_vara_int_all(ncid, v2, start, count, buf));
+    }
     A("ncmpi_close", ncmpi_close(ncid));
     opened = 0;
 bail:
@@ -599,6 +607,8 @@ int main(int argc, char **argv)
     else if (!strcmp(sc, "putrec")) sc_putrec(argv[3]);
     else if (!strcmp(sc, "redef1")) sc_redef(argv[3], 1);
     else if (!strcmp(sc, "redef2")) sc_redef(argv[3], 2);
+    else if (!strcmp(sc, "redef3")) sc_redef(argv[3], 3);
+    else if (!strcmp(sc, "redef4")) sc_redef(argv[3], 4);
     else if (!strcmp(sc, "fill")) sc_fill(argv[3]);
     else if (!strcmp(sc, "rw")) sc_rw(argv[3]);
     else if (!strcmp(sc, "zero")) sc_zero(argv[3]);
